@@ -1336,6 +1336,9 @@ impl CanonicalizeContext {
 				return false;
 			}
 
+			if mpadded.children().is_empty() {
+				return false;
+			}
 			let mphantom = as_element(mpadded.children()[0]);
 			if !(name(&mphantom) == "mphantom" && mphantom.children().len() == 1) {
 				return false;
